@@ -204,6 +204,40 @@ check('C17',
       'TLA+ resolution spec vs import-rule definition (TLC exhaustive), replay of TLC-generated trees on the file system with a FileFinder oracle',
       'DESIGN.md section 5 (C17)', 'modpath')
 
+SESSION_NOTE = ('Trusted: TLC; the doctest templates of harness/sessionlib.py whose outcome alone is known by construction (the same templates are '
+                'judged by the front-end checks and by the history check, so a wrong template shows up as a violation on the unchanged tree).')
+
+check('C10',
+      'Session.tla models the native front end (gather: all minus force-disabled, or the named doctest even if disabled; one run per gathered '
+      'doctest; tallies; failed list; exit status from n_failed; list). TLC checks RunSetRight, TalliesAddUp, ExitIffFailed, ListNamesAll for every '
+      'module of <=3 (thorough <=4) doctests over 12 by-construction outcome kinds (incl. failures before any part runs) x commands {all, list, '
+      '<name:num>, <name>} x default options {none, +SKIP, -ELLIPSIS}. Each finished case is rendered and run by runner.doctest_module in process '
+      '(verbosity 0..3, styles rotating): tallies, failed list, executed statements (each gathered doctest once, in order), the status returned by '
+      'xdoctest.__main__.main, the listing; a rotating sample through `python -m xdoctest` subprocesses.',
+      SESSION_NOTE, 'TLA+ runner spec (TLC exhaustive), replay of TLC-generated modules through the native runner and CLI',
+      'DESIGN.md section 5 (C10)', 'session')
+
+check('C11',
+      'Session.tla history mode: the doctests of a module are collected once and then run in any order, with repetition, with environment changes '
+      'in between; the process state that could carry over (visible names, module globals, default directive state, per-object buffer of '
+      'unmatched output) is explicit. TLC checks Isolation (every run has the outcome the doctest has alone), ModuleGlobalsKept, DefaultsKept for '
+      'every history of <=4 events over every module of <=3 doctests from 12 kinds (735k states). Sampled histories are replayed in one process '
+      'on the rendered module: outcome and recorded stdout of every run must be the solo ones; module globals, DEFAULT_RUNTIME_STATE, sys.stdout '
+      'and warning filters must be unchanged.',
+      SESSION_NOTE, 'TLA+ history spec (TLC exhaustive), replay of TLC-generated histories into DocTest.run in one process',
+      'DESIGN.md section 5 (C11)', 'session')
+
+check('C15',
+      'Session.tla with both front ends over the same collected list (native: force-disabled omitted; pytest: item skipped when force-disabled, '
+      'run(on_error=raise), skipped when every part was skipped / nothing ran), default options given to both. TLC checks PytestVerdicts together '
+      'with the native invariants for every module of <=3 (thorough <=4) doctests over 12 kinds x 3 option sets. Modules are placed six to a '
+      'directory; one `pytest --xdoctest` subprocess per directory (recorder conftest) and the native runner per module and per doctest: same '
+      'identifiers, predicted verdict on both sides, the two front ends equal to each other, force-disabled skipped vs omitted, exit codes '
+      'non-zero exactly when a doctest failed.',
+      SESSION_NOTE + ' pytest runs without the repository pytest.ini (-c /dev/null).',
+      'TLA+ two-front-end spec (TLC exhaustive), replay through pytest subprocesses and the native runner',
+      'DESIGN.md section 5 (C15)', 'session')
+
 NOT_YET = ['C01', 'C02', 'C03', 'C04', 'C05', 'C07', 'C08', 'C09', 'C10', 'C11', 'C12', 'C13', 'C14', 'C15', 'C16',
            'C17', 'C18', 'C19', 'C20']
 
@@ -228,6 +262,7 @@ def main():
             {'name': 'docparse', 'path': 'specs/DocParse.tla', 'serves_properties': ['C01', 'C13', 'C14', 'C18', 'C19', 'C20'], 'kind_free_text': 'TLA+ spec of the docstring parser (labeller, grouping, packaging, re-parse round, run set) with declarative labelling; MC_DocParse.tla alphabets; TLC prints finished docstrings, harness/parselib.py replays them'},
             {'name': 'collect', 'path': 'specs/Collect.tla', 'serves_properties': ['C07', 'C08', 'C16'], 'kind_free_text': 'TLA+ spec of module collection (visitor stack machine, declarative inventory, file line list, docstring/doctest line arithmetic); MC_Collect.tla alphabets; harness/collectlib.py renders and compares'},
             {'name': 'modpath', 'path': 'specs/ModPath.tla', 'serves_properties': ['C17', 'C07', 'C12'], 'kind_free_text': 'TLA+ spec of module name/path resolution, split and package walk over directory trees; MC_ModPath.tla; harness/c17.py materialises trees'},
+            {'name': 'session', 'path': 'specs/Session.tla', 'serves_properties': ['C10', 'C11', 'C15'], 'kind_free_text': 'TLA+ spec of a process running collected doctests through the native and pytest front ends or in arbitrary histories; harness/sessionlib.py renders by-construction doctests'},
             {'name': 'match', 'path': 'specs/Match.tla', 'serves_properties': ['C05', 'C06'], 'kind_free_text': 'TLA+ spec of output matching (normalisation pipeline, ellipsis) + MatchTrace.tla trace spec; TLC'},
         ],
         'checks': [CHECKS[k] for k in sorted(CHECKS)],
